@@ -8,7 +8,7 @@ from fractions import Fraction
 import numpy as _np
 
 from . import dag
-from .sym import S, SB, lift, sc, PI, SymbolicConcretisation
+from .sym import S, SB, lift, sc, PI, SymbolicConcretisation, SArr, as_sarr
 from .dag import ZERO, ONE, const
 
 _INTKINDS = "iub"
@@ -25,7 +25,7 @@ def _is_float_dtype(dtype):
 
 
 def _obj_zeros(shape, val=ZERO):
-    a = _np.empty(shape, dtype=object)
+    a = _np.empty(shape, dtype=object).view(SArr)
     a[...] = S(val)
     return a
 
@@ -99,7 +99,18 @@ class NPShim(object):
         self._sym = symbolic_alloc
 
     def __getattr__(self, k):
-        return getattr(_np, k)
+        f = getattr(_np, k)
+        if callable(f) and not isinstance(f, type) and not isinstance(f, _np.ufunc):
+            def wrapped(*a, **kw):
+                r = f(*a, **kw)
+                if isinstance(r, _np.ndarray):
+                    return as_sarr(r)
+                if isinstance(r, tuple):
+                    return tuple(as_sarr(x) for x in r)
+                return r
+            wrapped.__name__ = k
+            return wrapped
+        return f
 
     # ---------------------------------------------------------------- allocation
     def zeros(self, shape, dtype=None, order="C", **kw):
@@ -172,7 +183,7 @@ class NPShim(object):
             r[()] = a
             return r
         if isinstance(a, (list, tuple)) and _contains_sym(a):
-            return _np.array(a, dtype=object)
+            return _np.array(a, dtype=object).view(SArr)
         return f(a, dtype=dtype, **kw)
 
     def asarray(self, a, dtype=None, order=None, **kw):
@@ -188,7 +199,7 @@ class NPShim(object):
         if isinstance(a, _np.ndarray) and a.dtype == object and _is_float_dtype(dtype):
             r = a.copy() if copy else a
         elif isinstance(a, (list, tuple)) and _contains_sym(a) and _is_float_dtype(dtype):
-            r = _np.array(a, dtype=object)
+            r = _np.array(a, dtype=object).view(SArr)
         elif isinstance(a, S):
             r = _np.empty((), dtype=object)
             r[()] = a
